@@ -507,3 +507,161 @@ Proof.
       destruct (IHfuel m pax pspan sspan (pidx + 1) sidx k Hcap Hk Hp Hpl Hs) as (i & j & Hs' & ? & ? & ? & ?); try lia.
       exists i, j. split; [auto|lia].
 Qed.
+
+(* ------------------------------------------------------------------ last_of_type *)
+Lemma rposition_from_range : forall kind l i acc r, rposition_from kind l i acc = Some r ->
+  acc = Some r \/ i <= r < i + Z.of_nat (length l).
+Proof.
+  induction l; simpl; intros i acc r H; auto.
+  apply IHl in H. destruct H as [H|H]; [|right; lia].
+  destruct (cell_eqb a kind); auto. inversion H; subst. right. lia.
+Qed.
+
+Lemma rposition_range : forall kind l r, rposition kind l = Some r -> 0 <= r < Z.of_nat (length l).
+Proof. intros kind l r H. apply rposition_from_range in H. destruct H as [H|H]; [discriminate|lia]. Qed.
+
+Lemma last_of_type_total : forall m pax start k, cap m k -> 0 <= k <= 64 ->
+  - tc_neg (track_counts m (other_axis pax)) <= start -> start < endl (track_counts m (other_axis pax)) ->
+  1 <= tlen (track_counts m pax) ->
+  exists o, last_of_type m pax start AutoPlaced = Ok o /\
+            match o with None => True | Some l => - tc_neg (track_counts m pax) <= l /\ l < endl (track_counts m pax) end.
+Proof.
+  intros m pax start k Hcap Hk S1 S2 Hp.
+  destruct (cap_bounds m k Horizontal Hcap Hk) as ((?&?&?) & ? & ? & ?).
+  destruct (cap_bounds m k Vertical Hcap Hk) as ((?&?&?) & ? & ? & ?). simpl in *.
+  destruct Hcap as (Hwf & _). destruct Hwf as (_ & _ & _ & _ & Hreg).
+  pose proof (reg_rows _ _ _ Hreg) as HRr. pose proof (reg_cols _ _ _ Hreg) as HCc.
+  unfold last_of_type, oz_line_to_next_track. unfold tlen, endl in *.
+  destruct pax; simpl in *; ok_steps; rewrite i16_as_usize_small by lia.
+  - (* rows are the secondary axis *)
+    destruct (Z.eqb_spec (tc_neg (m_rows m) + tc_explicit (m_rows m) + tc_pos (m_rows m)) 0); [lia|].
+    destruct (Z.eqb_spec (tc_neg (m_cols m) + tc_explicit (m_cols m) + tc_pos (m_cols m)) 0); [lia|]. simpl in HRr, HCc.
+    rewrite HRr. destruct (Z.ltb_spec (start + tc_neg (m_rows m)) (tc_neg (m_rows m) + tc_explicit (m_rows m) + tc_pos (m_rows m))); [|lia].
+    cbn [bind].
+    destruct (rposition AutoPlaced (nth (Z.to_nat (start + tc_neg (m_rows m))) (m_inner m) [])) as [i|] eqn:Er.
+    + apply rposition_range in Er.
+      pose proof (reg_row_length _ _ _ (start + tc_neg (m_rows m)) Hreg ltac:(lia)) as Hl. rewrite HCc in Hl.
+      unfold track_to_prev_oz_line. rewrite usize_as_u16_small by lia. ok_steps. eexists. split; [reflexivity|]. simpl. lia.
+    + eexists. split; [reflexivity|]. exact I.
+  - destruct (Z.eqb_spec (tc_neg (m_rows m) + tc_explicit (m_rows m) + tc_pos (m_rows m)) 0); [lia|].
+    destruct (Z.eqb_spec (tc_neg (m_cols m) + tc_explicit (m_cols m) + tc_pos (m_cols m)) 0); [lia|]. simpl in HRr, HCc.
+    rewrite HCc. destruct (Z.ltb_spec (start + tc_neg (m_cols m)) (tc_neg (m_cols m) + tc_explicit (m_cols m) + tc_pos (m_cols m))); [|lia].
+    cbn [bind].
+    destruct (rposition AutoPlaced (map (fun row => nth (Z.to_nat (start + tc_neg (m_cols m))) row Unoccupied) (m_inner m))) as [i|] eqn:Er.
+    + apply rposition_range in Er. rewrite map_length in Er. unfold grid_rows in HRr.
+      unfold track_to_prev_oz_line. rewrite usize_as_u16_small by lia. ok_steps. eexists. split; [reflexivity|]. simpl. lia.
+    + eexists. split; [reflexivity|]. exact I.
+Qed.
+
+(* ------------------------------------------------------------------ the two auto-placement functions *)
+Lemma fits_definite : forall ecc erc m c a, 0 <= ecc <= 64 -> 0 <= erc <= 64 -> child_ok c -> child_fits ecc erc m c ->
+  is_definite (grid_placement c a) = true ->
+  exists r, resolve_definite_grid_lines (ozln (grid_placement c a) (explicit_at ecc erc a)) = Ok r /\
+            - tc_neg (track_counts m a) <= l_start r /\ l_start r < l_end r /\ l_end r <= endl (track_counts m a).
+Proof.
+  intros ecc erc m c a He1 He2 [Hr Hc] Hfit Hd. destruct (Hfit a) as [H1 _]. destruct (H1 Hd) as [r [Hres [? ?]]].
+  exists r. split; auto. unfold endl.
+  assert (Hln : ln_ok (grid_placement c a)) by (destruct a; auto).
+  assert (He : 0 <= explicit_at ecc erc a <= 64) by (destruct a; auto).
+  pose proof (resolve_definite_spec _ _ _ He Hln Hd Hres) as (_ & ? & _). lia.
+Qed.
+
+Lemma fits_indefinite : forall ecc erc m c a, 0 <= ecc <= 64 -> 0 <= erc <= 64 -> child_ok c -> child_fits ecc erc m c ->
+  is_definite (grid_placement c a) = false ->
+  exists s, indefinite_span (ozln (grid_placement c a) (explicit_at ecc erc a)) = Ok s /\ 1 <= s <= 64 /\ s <= tlen (track_counts m a) /\
+            is_definite_oz (ozln (grid_placement c a) (explicit_at ecc erc a)) = false /\
+            ozln_ok (ozln (grid_placement c a) (explicit_at ecc erc a)).
+Proof.
+  intros ecc erc m c a He1 He2 [Hr Hc] Hfit Hd. destruct (Hfit a) as [_ H2]. destruct (H2 Hd) as [s [Hs ?]].
+  assert (Hln : ln_ok (grid_placement c a)) by (destruct a; auto).
+  assert (He : 0 <= explicit_at ecc erc a <= 64) by (destruct a; auto).
+  pose proof (ozln_is_ok _ _ He Hln) as Hok.
+  exists s. split; auto. split; [eapply indefinite_span_range; eauto|]. split; auto. split; auto.
+  unfold ozln. rewrite is_definite_oz_spec. auto.
+Qed.
+
+Lemma tlen_endl : forall tc, tlen tc = tc_neg tc + endl tc.
+Proof. intros. unfold tlen, endl. lia. Qed.
+
+Lemma implicit_start_line_total : forall tc, tc_nonneg tc -> tc_neg tc <= 32767 -> implicit_start_line tc = Ok (- tc_neg tc).
+Proof. intros tc (?&?&?) Hb. unfold implicit_start_line. ok_steps. reflexivity. Qed.
+
+Lemma implicit_end_line_total : forall tc, tc_nonneg tc -> endl tc <= 32767 -> implicit_end_line tc = Ok (endl tc).
+Proof. intros tc (?&?&?) Hb. unfold implicit_end_line, endl in *. ok_steps. reflexivity. Qed.
+
+Lemma pdsa_total : forall m ecc erc c fl k, cap m k -> 0 <= k <= 64 -> child_ok c -> 0 <= ecc <= 64 -> 0 <= erc <= 64 ->
+  child_fits ecc erc m c ->
+  is_definite (grid_placement c (other_axis (primary_axis fl))) = true -> is_definite (grid_placement c (primary_axis fl)) = false ->
+  exists pp sec, place_definite_secondary_axis_item m (mkBoth (ozln (c_col c) ecc) (ozln (c_row c) erc)) fl = Ok (pp, sec) /\
+     - tc_neg (track_counts m (primary_axis fl)) <= l_start pp /\ l_start pp < l_end pp /\
+     l_end pp <= endl (track_counts m (primary_axis fl)) + 64 /\
+     - tc_neg (track_counts m (other_axis (primary_axis fl))) <= l_start sec /\ l_start sec < l_end sec /\
+     l_end sec <= endl (track_counts m (other_axis (primary_axis fl))).
+Proof.
+  intros m ecc erc c fl k Hcap Hk Hc He1 He2 Hfit Hd2 Hd1. set (pax := primary_axis fl) in *.
+  destruct (cap_bounds m k pax Hcap Hk) as (Hnp & ? & ? & ?). pose proof Hnp as (?&?&?).
+  destruct (cap_bounds m k (other_axis pax) Hcap Hk) as (Hns & ? & ? & ?). pose proof Hns as (?&?&?).
+  destruct (fits_definite ecc erc m c (other_axis pax) He1 He2 Hc Hfit Hd2) as (sec & Hsec & S1 & S2 & S3).
+  destruct (fits_indefinite ecc erc m c pax He1 He2 Hc Hfit Hd1) as (sp & Hsp & Sp1 & Sp2 & Hdo & Hok).
+  unfold place_definite_secondary_axis_item. fold pax. rewrite !both_get_ozln. rewrite Hsec. cbn [bind].
+  rewrite implicit_start_line_total by (auto; lia). cbn [bind].
+  assert (Hstart : exists sp0, (if is_dense fl then Ok (- tc_neg (track_counts m pax))
+                    else (do lo <- last_of_type m pax (l_start sec) AutoPlaced;
+                          Ok (match lo with Some l => l | None => - tc_neg (track_counts m pax) end))) = Ok sp0 /\
+                    - tc_neg (track_counts m pax) <= sp0 <= endl (track_counts m pax)).
+  { destruct (is_dense fl).
+    - eexists. split; [reflexivity|]. lia.
+    - destruct (last_of_type_total m pax (l_start sec) k Hcap Hk) as [o [Ho Hb]]; try lia.
+      rewrite Ho. cbn [bind]. destruct o; eexists; (split; [reflexivity|]); lia. }
+  destruct Hstart as [sp0 [Hsp0 Hb0]]. rewrite Hsp0. cbn [bind].
+  rewrite (tc_len_intro (track_counts m pax)) by (auto; lia). cbn [bind].
+  destruct (ssd_total (Z.to_nat (tlen (track_counts m pax) + 2)) m (mkBoth (ozln (c_col c) ecc) (ozln (c_row c) erc)) pax sec sp0 k Hcap Hk)
+    as (pp & Hpp & P1 & P2); try lia.
+  { rewrite both_get_ozln. auto. }
+  { rewrite both_get_ozln. auto. }
+  { rewrite tlen_endl. lia. }
+  exists pp, sec. split; [exact Hpp|].
+  apply search_secondary_definite_spec in Hpp. destruct Hpp as (_ & _ & [p Hp]). rewrite both_get_ozln in Hp.
+  apply resolve_indefinite_spec in Hp; auto. lia.
+Qed.
+
+Lemma pipi_total : forall m ecc erc c fl k cp cs, cap m k -> 0 <= k <= 64 -> child_ok c -> 0 <= ecc <= 64 -> 0 <= erc <= 64 ->
+  child_fits ecc erc m c ->
+  is_definite (grid_placement c (other_axis (primary_axis fl))) = false ->
+  - tc_neg (track_counts m (primary_axis fl)) <= cp <= endl (track_counts m (primary_axis fl)) ->
+  - tc_neg (track_counts m (other_axis (primary_axis fl))) <= cs <= endl (track_counts m (other_axis (primary_axis fl))) ->
+  exists ps ss, place_indefinitely_positioned_item m (mkBoth (ozln (c_col c) ecc) (ozln (c_row c) erc)) fl (cp, cs) = Ok (ps, ss) /\
+     - tc_neg (track_counts m (primary_axis fl)) <= l_start ps /\ l_start ps < l_end ps /\
+     l_end ps <= endl (track_counts m (primary_axis fl)) /\
+     - tc_neg (track_counts m (other_axis (primary_axis fl))) <= l_start ss /\ l_start ss < l_end ss /\
+     l_end ss <= endl (track_counts m (other_axis (primary_axis fl))) + 66.
+Proof.
+  intros m ecc erc c fl k cp cs Hcap Hk Hc He1 He2 Hfit Hd2 Hcp Hcs. set (pax := primary_axis fl) in *.
+  destruct (cap_bounds m k pax Hcap Hk) as (Hnp & ? & ? & ?). pose proof Hnp as (?&?&?).
+  destruct (cap_bounds m k (other_axis pax) Hcap Hk) as (Hns & ? & ? & ?). pose proof Hns as (?&?&?).
+  destruct (fits_indefinite ecc erc m c (other_axis pax) He1 He2 Hc Hfit Hd2) as (ssp & Hssp & Ss1 & Ss2 & _ & _).
+  unfold place_indefinitely_positioned_item. fold pax. rewrite !both_get_ozln. rewrite Hssp. cbn [bind].
+  rewrite !implicit_start_line_total by (auto; lia). rewrite implicit_end_line_total by (auto; lia). cbn [bind].
+  rewrite (tc_len_intro (track_counts m pax)) by (auto; lia). rewrite (tc_len_intro (track_counts m (other_axis pax))) by (auto; lia). cbn [bind].
+  unfold ozln at 1. rewrite is_definite_oz_spec.
+  destruct (is_definite (grid_placement c pax)) eqn:Hd1.
+  - destruct (fits_definite ecc erc m c pax He1 He2 Hc Hfit Hd1) as (pr & Hpr & P1 & P2 & P3). rewrite Hpr. cbn [bind].
+    assert (Hidx : exists i0, (if is_dense fl then Ok (- tc_neg (track_counts m (other_axis pax)))
+                      else if l_start pr <? cp then ozl_add_u16 cs 1 else Ok cs) = Ok i0 /\
+                      - tc_neg (track_counts m (other_axis pax)) <= i0 <= endl (track_counts m (other_axis pax)) + 1).
+    { destruct (is_dense fl); [eexists; split; [reflexivity|lia]|].
+      destruct (l_start pr <? cp); [|eexists; split; [reflexivity|lia]].
+      ok_steps. eexists; split; [reflexivity|lia]. }
+    destruct Hidx as [i0 [Hi0 Hb0]]. rewrite Hi0. cbn [bind].
+    destruct (ss_total (Z.to_nat (tlen (track_counts m (other_axis pax)) + 2)) m pax pr ssp i0 k Hcap Hk) as (i & Hs & I1 & I2); try lia.
+    { rewrite tlen_endl. lia. }
+    exists pr, (mkLn i (i + ssp)). split; [exact Hs|]. simpl. lia.
+  - destruct (fits_indefinite ecc erc m c pax He1 He2 Hc Hfit Hd1) as (psp & Hpsp & Ps1 & Ps2 & _ & _). rewrite Hpsp. cbn [bind].
+    destruct (sb_total (Z.to_nat ((tlen (track_counts m pax) + 2) * (tlen (track_counts m (other_axis pax)) + 2))) m pax psp ssp cp cs k Hcap Hk)
+      as (i & j & Hs & I1 & I2 & J1 & J2); try lia.
+    { rewrite Z2Nat.id by (apply Z.mul_nonneg_nonneg; unfold tlen; lia).
+      rewrite !tlen_endl. 
+      assert (0 <= Z.max 0 (endl (track_counts m (other_axis pax)) - cs) <= tc_neg (track_counts m (other_axis pax)) + endl (track_counts m (other_axis pax))) by lia.
+      nia. }
+    exists (mkLn i (i + psp)), (mkLn j (j + ssp)). split; [exact Hs|]. simpl. lia.
+Qed.
